@@ -30,6 +30,53 @@ class Ctx:
         self.has_model = m is not None and not (m or {}).get("driver_error")
 
 
+def model_ctx(ctx):
+    """The same judgement applied to the MODEL's output: driver fields prefixed "model:" take the place of the
+    implementation's, status/count/tags come from the model.  None when the model did not produce an output."""
+    m = ctx.m
+    if not ctx.has_model or m.get("model") not in ("ok", "error"):
+        return None
+    mm = dict((k, v) for k, v in m.items() if not k.startswith("model:") and not k.startswith("out_") and k not in
+              ("directives_ok", "erase_ok", "missing_sites", "roundtrip_ok"))
+    for k, v in m.items():
+        if k.startswith("model:"):
+            mm[k[6:]] = v
+    if m["model"] == "error":
+        cout = {"outcome": "error", "error": m.get("model_error"), "ast_in": ctx.cout.get("ast_in")}
+    else:
+        tags = m.get("model_tags") or []
+        verb = (ctx.cfg or {}).get("verbosity")
+        cout = {"outcome": "ok", "ast_in": ctx.cout.get("ast_in"),
+                "result": {"content": None, "literalsResult": None,
+                           "metrics": {"status": m.get("model_status"), "instrumentedPropagation": m.get("model_count"),
+                                       "file": ctx.cin.get("file"),
+                                       "propagationDebug": (dict(collections.Counter(tags)) if verb == "DEBUG" else None)}}}
+    c2 = Ctx(ctx.case, ctx.r, ctx.cin, cout, mm)
+    c2.is_model = True
+    return c2
+
+
+def verdict_projection(mod, ctx, known):
+    """pi_X by verdict: the property's own oracle must say the same about the model's output and the implementation's."""
+    mc = model_ctx(ctx)
+    if mc is None or ctx.cout.get("outcome") not in ("ok", "error") or "ast_in" not in ctx.cout:
+        return True, ""
+    def kinds(c):
+        out = set()
+        for f in mod.judge(c):
+            if f.cls and [k for k in known if k.get("class") == f.cls]:
+                continue
+            out.add(f.what.split(":")[0][:60])
+        return out
+    try:
+        a, b = kinds(mc), kinds(ctx)
+    except Exception as e:
+        return True, ""
+    if a != b:
+        return False, "the property's oracle says %s about the model's output and %s about the implementation's" % (sorted(a) or "nothing", sorted(b) or "nothing")
+    return True, ""
+
+
 def finding_cases(pid, opts=None):
     out = []
     for k in C.known_for(pid) + C.fixed_for(pid):
@@ -42,11 +89,24 @@ def finding_cases(pid, opts=None):
     return out
 
 
+def catalogue_cases(seed, n, tag, cfg_fn=None, opts=None, reserved=None, prefix=None):
+    import catalogue
+    out = []
+    for i, code in enumerate(catalogue.catalogue("%s/%s" % (seed, tag), n, reserved=reserved)):
+        rng = random.Random("%s/%s/catcfg/%d" % (seed, tag, i))
+        cfg = cfg_fn(rng) if (cfg_fn and rng.random() < 0.4) else vlib.default_config()
+        if prefix:
+            cfg["localVarPrefix"] = prefix
+        out.append({"id": "cat-%s-%d" % (tag, i), "config": cfg, "calls": [{"code": code, "file": "cat.js"}], "opts": dict(opts or {})})
+    return out
+
+
 def default_cases(O, pid, n_quick=300, n_thorough=4000, cfg_fn=F.config_variants, opts=None, tag=None, **genkw):
     n = n_quick if O.tier == "quick" else n_thorough
     cases = F.regress_cases(opts=opts)
     cases += F.snippet_cases(opts=opts)
     cases += F.generated_cases(O.seed, n, tag or pid.lower(), cfg_fn=cfg_fn, opts=opts, **genkw)
+    cases += catalogue_cases(O.seed, n if O.tier == "quick" else 2 * n, tag or pid.lower(), cfg_fn=cfg_fn, opts=opts)
     cases += finding_cases(pid, opts)
     return cases
 
@@ -59,6 +119,7 @@ def run(O, P, mod, pid):
     outcomes = collections.Counter()
     sizes = []
     proj_breaks = 0
+    full = {"compared": 0, "equal": 0}
     for case, r, calls in results:
         for ki, (cin, cout, m) in enumerate(calls):
             O.evaluations += 1
@@ -104,8 +165,11 @@ def run(O, P, mod, pid):
                                      "info": f.info, "all_failures": [x.what for x in real][:8],
                                      "impl_outcome": cout.get("outcome"), "impl_error": cout.get("error") or cout.get("panic")})
                 continue
-            if hasattr(mod, "projection"):
-                pok, why = mod.projection(ctx)
+            if ctx.has_model and ctx.m.get("model") == "ok" and "ast_equal" in ctx.m:
+                full["compared"] += 1
+                full["equal"] += 1 if ctx.m["ast_equal"] else 0
+            if True:
+                pok, why = mod.projection(ctx) if hasattr(mod, "projection") else verdict_projection(mod, ctx, known)
                 if not pok:
                     proj_breaks += 1
                     if proj_breaks <= 3:
@@ -119,6 +183,7 @@ def run(O, P, mod, pid):
         sizes.sort()
         O.coverage["input_size_bytes"] = {"min": sizes[0], "median": sizes[len(sizes) // 2], "max": sizes[-1]}
     O.coverage["correspondence_breaks"] = proj_breaks
+    O.coverage["full_output_tree_model_vs_impl"] = dict(full, note="informational: whole-tree agreement of the extracted model with the implementation; only the property's projection decides")
     return results
 
 
